@@ -24,6 +24,7 @@
 from __future__ import annotations
 
 import ast
+import copy
 import re
 from typing import Any, Dict, List, Optional, Sequence, Set, Tuple
 
@@ -57,6 +58,7 @@ class DmxWire:
         self.env = self.ex.env
         self.raised: Optional[ast.AST] = None
         self.streams: Set[str] = {'file'}           # the stream parameter and local aliases of it (`file_, size_ = file, size`)
+        self.local_fns: Dict[str, Tuple[List[str], ast.AST]] = {}     # one-expression local helpers, expanded at their calls
         # locals used as the size argument of a read: `<stream>.read(<name>)`
         if id(mod) not in _READ_SIZES:
             _READ_SIZES[id(mod)] = {c.args[0].id for c in ast.walk(mod.tree) if isinstance(c, ast.Call) and isinstance(c.func, ast.Attribute) and c.func.attr == 'read' and len(c.args) == 1
@@ -136,6 +138,18 @@ class DmxWire:
                 return [self.size_tok(e.args[0], e)]
             if isinstance(e.func, ast.Attribute) and e.func.attr == 'write' and dotted(e.func.value) == 'file' and e.args:
                 return self.written(e.args[0], e)
+            if isinstance(e.func, ast.Name) and e.func.id in self.local_fns and not e.keywords and len(e.args) == len(self.local_fns[e.func.id][0]):
+                params_, body_ = self.local_fns[e.func.id]
+                sub_ = dict(zip(params_, e.args))
+
+                class _Sub(ast.NodeTransformer):
+                    def visit_Name(self, n: ast.Name) -> ast.AST:      # noqa: N802
+                        return copy.deepcopy(sub_[n.id]) if n.id in sub_ and isinstance(n.ctx, ast.Load) else n
+                inl = ast.fix_missing_locations(ast.copy_location(_Sub().visit(copy.deepcopy(body_)), e))
+                for x_ in ast.walk(inl):
+                    if not hasattr(x_, 'lineno'):
+                        x_.lineno = e.lineno       # type: ignore[attr-defined]
+                return self.expr(inl)
             for a in list(e.args) + [k.value for k in e.keywords]:
                 out += self.expr(a)
             if isinstance(e.func, ast.Attribute):
@@ -274,6 +288,13 @@ class DmxWire:
             return out + self.block(st.orelse) + self.block(st.finalbody)
         if isinstance(st, (ast.Assert, ast.Pass, ast.Continue, ast.Break)):
             return []
+        if isinstance(st, ast.FunctionDef):
+            # a local one-expression helper (`def write_nullstr(text): file.write(text.encode(encoding) + b'\\0')`): expanded at its calls
+            body = [b for b in st.body if not (isinstance(b, ast.Expr) and isinstance(b.value, ast.Constant))]
+            a_ = st.args
+            if len(body) == 1 and isinstance(body[0], (ast.Expr, ast.Return)) and body[0].value is not None and not (a_.vararg or a_.kwarg or a_.kwonlyargs or a_.defaults or a_.posonlyargs):
+                self.local_fns[st.name] = ([x.arg for x in a_.args], body[0].value)
+                return []
         raise AnalysisError(f'line {st.lineno}: statement kind {type(st).__name__} not handled by the DMX wire extractor')
 
 
